@@ -372,6 +372,58 @@ def check_partial_output(wd, sieve, stats):
                    'summary': 'output "OK" + 3 bits: ' + str({k: (v[0], v[1].decode('latin1')) for k, v in got.items() if v != (0, b'OK')})})
 
 
+def check_test_flavour(wd, sieve, stats):
+    """the output-testing API calls give the same verdict as comparing what flipjump.run() / the fj command report: True exactly when the output
+    AND the termination cause are the expected ones (the default expectation is the regular self-loop), for every way a run can end."""
+    import flipjump
+    from flipjump.utils.classes import TerminationCause
+    from flipjump.interpreter.io_devices.FixedIO import FixedIO
+    from fjv.asm import quiet
+    root = wd / 'flavour'
+    root.mkdir()
+    bits = [(b >> i) & 1 for b in b'OK' for i in range(8)]
+    head = ';code\nIO:\n;0\ncode:\n' + ''.join(f'IO+{b};\n' for b in bits)
+    endings = {'looping': 'end:\n;end\n', 'null-ip': ';0\n', 'memory-error': ';1 << 40\n', 'end-of-input': 'IO;\nend:\n;end\n'}
+    for ename, tail in endings.items():
+        src, out = root / f'{ename}.fj', root / f'{ename}.fjm'
+        src.write_text(head + tail)
+        with quiet():
+            flipjump.assemble([src], out, use_stl=False, print_time=False)
+            dev = FixedIO(b'')
+            st = flipjump.run(out, io_device=dev, print_time=False, print_termination=False)
+        actual = st.termination_cause
+        assert dev.get_output(allow_incomplete_output=True) == b'OK', (ename, dev.get_output(allow_incomplete_output=True))
+        rc, so, se = cli(['--run', str(out), '-s'])
+        stats['cli_runs'] += 1
+        for expected_cause in [None] + list(TerminationCause):
+            for exp_out in (b'OK', b'OQ'):
+                for raises in (False, True):
+                    for route in ('run_test_output', 'assemble_and_run_test_output'):
+                        kw = dict(should_raise_assertion_error=raises, print_time=False, print_termination=False)
+                        if expected_cause is not None:
+                            kw['expected_termination_cause'] = expected_cause
+                        want = (actual == (expected_cause if expected_cause is not None else TerminationCause.Looping)) and exp_out == b'OK'
+                        try:
+                            with quiet():
+                                if route == 'run_test_output':
+                                    got = flipjump.run_test_output(out, b'', exp_out, **kw)
+                                else:
+                                    got = flipjump.assemble_and_run_test_output([src], b'', exp_out, use_stl=False, **kw)
+                        except AssertionError:
+                            got = 'AssertionError'
+                        except Exception as e:  # noqa
+                            got = f'{type(e).__name__}: {str(e)[:80]}'
+                        stats['configs'] += 1
+                        exp = True if want else ('AssertionError' if raises else False)
+                        if got != exp:
+                            sieve.add({'kind': 'the output-testing API call gives another verdict than the run itself', 'class': f'test flavour {route}',
+                                       'case': {'program': src.read_text(), 'ending': ename, 'route': route, 'expected_termination_cause': str(expected_cause),
+                                                'expected_output': exp_out.decode(), 'should_raise_assertion_error': raises},
+                                       'expected': exp, 'observed': got,
+                                       'summary': f'{route}(ending={ename} [{actual}], expected cause={expected_cause}, expected output={exp_out!r}, raise={raises}): '
+                                                  f'{got} instead of {exp} (fj --run printed {so[:40]!r})'})
+
+
 def check_breakpoints(wd, sieve, stats):
     """label breakpoints through every route and option mix (-s, -d with a path / bare / absent, -b / -B): the run pauses at the label -
     answering `q` stops the program before the bytes after the label are printed, answering `c` lets it print all of them."""
@@ -536,8 +588,8 @@ def work(task):
     sieve = Sieve(PROP)
     stats = {'configs': 0, 'cli_runs': 0}
     wd = scratch()
-    if kind in ('defaults', 'default-device', 'paths', 'werror', 'partial', 'breakpoints'):
-        {'defaults': check_defaults, 'default-device': check_default_device, 'paths': check_path_spellings, 'werror': check_werror, 'partial': check_partial_output, 'breakpoints': check_breakpoints}[kind](wd, sieve, stats)
+    if kind in ('defaults', 'default-device', 'paths', 'werror', 'partial', 'breakpoints', 'test-flavour'):
+        {'defaults': check_defaults, 'default-device': check_default_device, 'paths': check_path_spellings, 'werror': check_werror, 'partial': check_partial_output, 'breakpoints': check_breakpoints, 'test-flavour': check_test_flavour}[kind](wd, sieve, stats)
         return stats, sieve.result(), None
     sample = None
     api_user_history(part, wd)
@@ -575,7 +627,7 @@ def main():
     if args.replay:
         return replay(args)
     run = Run(PROP, 'exploration', args)
-    tasks = [(k, args.tier, 0, 1) for k in ('defaults', 'default-device', 'paths', 'werror', 'partial', 'breakpoints')] + [('cfg', args.tier, p, 32) for p in range(32)]
+    tasks = [(k, args.tier, 0, 1) for k in ('defaults', 'default-device', 'paths', 'werror', 'partial', 'breakpoints', 'test-flavour')] + [('cfg', args.tier, p, 32) for p in range(32)]
     total, samples = {}, []
     for stats, res, sample in pmap(work, tasks, args.jobs):
         for k, v in stats.items():
